@@ -726,6 +726,20 @@ func strideMatchesWorkers(p *load.Prog, r *oblig.Run, rule string, region map[*s
 						}
 					}
 					if !starts || back == nil {
+						// a loop whose start is computed from the worker number (block partition and the like): decide by
+						// enumeration whether the workers' index sets cover the list exactly once
+						if back != nil && dependsOnValue(ph.Edges, body.Params[0], h) {
+							o := r.Add(rule, "partition of the worker loop in "+load.FuncName(body), p.Pos(h.Instrs[len(h.Instrs)-1].Pos()), "index sets of the workers")
+							why, decided := partitionCovers(fn, body, h, ph, nCell, cell)
+							switch {
+							case !decided:
+								o.Unknown("cannot establish that the workers' index sets cover the list exactly once: " + why)
+							case why != "":
+								o.Fail(why)
+							default:
+								o.OK("for every list length 0..12 and 1..5 workers the workers' index sets partition the list")
+							}
+						}
 						continue
 					}
 					o := r.Add(rule, "stride of the worker loop in "+load.FuncName(body), p.Pos(h.Instrs[len(h.Instrs)-1].Pos()), "step of a loop that starts at the worker number")
@@ -743,4 +757,193 @@ func strideMatchesWorkers(p *load.Prog, r *oblig.Run, rule string, region map[*s
 			}
 		}
 	}
+}
+
+// dependsOnValue: some entry edge of the loop variable is computed from v.
+func dependsOnValue(edges []ssa.Value, v ssa.Value, h *ssa.BasicBlock) bool {
+	seen := map[ssa.Value]bool{}
+	var walk func(x ssa.Value) bool
+	walk = func(x ssa.Value) bool {
+		if x == v {
+			return true
+		}
+		if seen[x] {
+			return false
+		}
+		seen[x] = true
+		switch y := x.(type) {
+		case *ssa.BinOp:
+			return walk(y.X) || walk(y.Y)
+		case *ssa.Convert:
+			return walk(y.X)
+		}
+		return false
+	}
+	for i, e := range edges {
+		if h.Dominates(h.Preds[i]) {
+			continue
+		}
+		if walk(e) {
+			return true
+		}
+	}
+	return false
+}
+
+// partitionCovers decides, by evaluating the loop's start, bound and step expressions (integer expressions over the
+// worker number w, the number of workers n and the length L of the indexed list) for L = 0..12 and n = 1..5, whether
+// the union over w = 0..n-1 of the visited indexes is exactly 0..L-1 with no index visited twice. decided=false when
+// an expression has another leaf. why != "" names the smallest counter-example.
+func partitionCovers(parent, body *ssa.Function, h *ssa.BasicBlock, ph *ssa.Phi, nCell ssa.Value, cell func(ssa.Value, *ssa.Function) ssa.Value) (why string, decided bool) {
+	var initV, backV ssa.Value
+	for i, pr := range h.Preds {
+		if h.Dominates(pr) {
+			backV = ph.Edges[i]
+		} else {
+			initV = ph.Edges[i]
+		}
+	}
+	iff, ok := h.Instrs[len(h.Instrs)-1].(*ssa.If)
+	if !ok || initV == nil || backV == nil {
+		return "the loop has no test at its head", false
+	}
+	cmp, ok := iff.Cond.(*ssa.BinOp)
+	if !ok || cmp.X != ssa.Value(ph) || (cmp.Op != token.LSS && cmp.Op != token.LEQ) {
+		return "the loop test is not index < bound", false
+	}
+	step, ok := backV.(*ssa.BinOp)
+	if !ok || step.Op != token.ADD || step.X != ssa.Value(ph) {
+		return "the loop variable is not advanced by an addition", false
+	}
+	// the list: the slice indexed by the loop variable
+	var list ssa.Value
+	for _, b := range body.Blocks {
+		for _, ins := range b.Instrs {
+			if ia, ok := ins.(*ssa.IndexAddr); ok && ia.Index == ssa.Value(ph) {
+				c := cell(ia.X, body)
+				if list != nil && list != c {
+					return "the loop variable indexes two different lists", false
+				}
+				list = c
+			}
+		}
+	}
+	if list == nil {
+		return "the loop variable indexes no list", false
+	}
+	type env struct{ w, n, l int64 }
+	var eval func(v ssa.Value, in *ssa.Function, e env, depth int) (int64, bool)
+	eval = func(v ssa.Value, in *ssa.Function, e env, depth int) (int64, bool) {
+		if depth > 12 {
+			return 0, false
+		}
+		if k, isK := su.ConstInt(v); isK {
+			return k, true
+		}
+		if in == body && v == ssa.Value(body.Params[0]) {
+			return e.w, true
+		}
+		if c := cell(v, in); c == nCell && nCell != nil {
+			return e.n, true
+		}
+		switch x := v.(type) {
+		case *ssa.BinOp:
+			a, ok1 := eval(x.X, in, e, depth+1)
+			b, ok2 := eval(x.Y, in, e, depth+1)
+			if !ok1 || !ok2 {
+				return 0, false
+			}
+			switch x.Op {
+			case token.ADD:
+				return a + b, true
+			case token.SUB:
+				return a - b, true
+			case token.MUL:
+				return a * b, true
+			case token.QUO:
+				if b == 0 {
+					return 0, false
+				}
+				return a / b, true
+			case token.REM:
+				if b == 0 {
+					return 0, false
+				}
+				return a % b, true
+			}
+			return 0, false
+		case *ssa.Call:
+			if of, isLen := lenArg(x); isLen {
+				if cell(of, in) == list {
+					return e.l, true
+				}
+			}
+			return 0, false
+		case *ssa.UnOp:
+			if x.Op != token.MUL {
+				return 0, false
+			}
+			// a captured variable or a local of the parent with a single assignment
+			c := cell(v, in)
+			al, ok := c.(*ssa.Alloc)
+			if !ok {
+				return 0, false
+			}
+			var val ssa.Value
+			n := 0
+			for _, ref := range *al.Referrers() {
+				if st, ok := ref.(*ssa.Store); ok && st.Addr == ssa.Value(al) {
+					val = st.Val
+					n++
+				}
+			}
+			if n != 1 {
+				return 0, false
+			}
+			return eval(val, al.Parent(), e, depth+1)
+		case *ssa.FreeVar:
+			// captured by value: the binding in the parent
+			c := cell(&ssa.UnOp{Op: token.MUL, X: x}, in)
+			if c == nil || c == ssa.Value(x) {
+				return 0, false
+			}
+			return eval(c, parent, e, depth+1)
+		}
+		return 0, false
+	}
+	for l := int64(0); l <= 12; l++ {
+		for n := int64(1); n <= 5; n++ {
+			count := make([]int, l)
+			for w := int64(0); w < n; w++ {
+				e := env{w, n, l}
+				i0, ok1 := eval(initV, body, e, 0)
+				bd, ok2 := eval(cmp.Y, body, e, 0)
+				st, ok3 := eval(step.Y, body, e, 0)
+				if !ok1 || !ok2 || !ok3 {
+					return "the loop's start, bound or step is not an integer expression over the worker number, the number of workers and the list length", false
+				}
+				if st <= 0 {
+					if (cmp.Op == token.LSS && i0 < bd) || (cmp.Op == token.LEQ && i0 <= bd) {
+						return fmt.Sprintf("with %d individuals and %d workers worker %d never advances (step %d)", l, n, w, st), true
+					}
+					continue
+				}
+				for i := i0; (cmp.Op == token.LSS && i < bd) || (cmp.Op == token.LEQ && i <= bd); i += st {
+					if i < 0 || i >= l {
+						return fmt.Sprintf("with %d individuals and %d workers worker %d indexes position %d, outside the list", l, n, w, i), true
+					}
+					count[i]++
+				}
+			}
+			for i, c := range count {
+				if c == 0 {
+					return fmt.Sprintf("with %d individuals and %d workers no worker examines position %d: that individual is never compared (its match is missing from the result)", l, n, i), true
+				}
+				if c > 1 {
+					return fmt.Sprintf("with %d individuals and %d workers position %d is examined by %d workers: the same individual is compared and sent more than once", l, n, i, c), true
+				}
+			}
+		}
+	}
+	return "", true
 }
